@@ -87,7 +87,18 @@ func GenCall(r *rand.Rand, method string, rs *RuleSet, cfg *Config) (c Call, ok 
 		c.N = 1 + r.Intn(tot-1)
 		c.M = tot - c.N
 		c.Names = names[:tot]
-		if cfg.BadNM {
+		if cfg.DupNames && tot >= 2 && r.Intn(6) == 0 {
+			// right count, all names known, but one of them twice (as many names as rules when tot == n)
+			c.Names = append([]string{}, c.Names...)
+			c.Names[r.Intn(tot)] = c.Names[r.Intn(tot)]
+			dup := map[string]bool{}
+			for _, nm := range c.Names {
+				if dup[nm] {
+					c.DupNames = true
+				}
+				dup[nm] = true
+			}
+		} else if cfg.BadNM {
 			switch r.Intn(6) {
 			case 0: // unknown name at a random position
 				c.Names = append([]string{}, c.Names...)
@@ -340,7 +351,50 @@ func RunCase(k *fw.Case, cfg *Config) {
 	}
 	var calls []done
 	sh := shape(rs)
+	replaceAt := -1
+	if cfg.Calls >= 4 && len(rs.Rules) >= 2 && r.Intn(3) == 0 {
+		replaceAt = cfg.Calls / 2
+	}
 	for i := 0; i < cfg.Calls; i++ {
+		if i == replaceAt {
+			// half-way: one rule is replaced by an incremental update (new body = new id, possibly a new
+			// salience and fault status); the calls that follow must run the new version - a selection,
+			// an order or a rule body cached from the earlier calls would be stale now
+			old := rs.Rules[r.Intn(len(rs.Rules))]
+			nr := *old
+			nr.ID = old.ID + 1000
+			nr.Fail, nr.FailInReturn, nr.Custom = FailNone, false, ""
+			if r.Intn(4) == 0 {
+				nr.Fail = FailDivZero
+			}
+			if nr.Ret != RetNone {
+				nr.RetVal = old.RetVal + 7
+			}
+			if r.Intn(2) == 0 {
+				nr.HasSal, nr.Sal = true, int64(r.Intn(7)-3)
+			}
+			txt := nr.Text(r)
+			var uerr error
+			CompileLocked(func() error {
+				uerr = eng.RB.BuildRuleWithIncremental(txt)
+				if uerr == nil && pool != nil {
+					uerr = pool.Pool.UpdatePooledRulesIncremental(txt)
+				}
+				return nil
+			})
+			if uerr != nil {
+				k.Inconclusive("incremental replacement did not compile: " + trunc(uerr.Error(), 200))
+				return
+			}
+			for ri := range rs.Rules {
+				if rs.Rules[ri] == old {
+					rs.Rules[ri] = &nr
+				}
+			}
+			rs.Text += "\n// replaced incrementally:\n" + txt
+			sh = shape(rs)
+			k.Count("rule_sets_with_a_mid_case_replacement", 1)
+		}
 		method := cfg.Methods[(k.Index*cfg.Calls+i+r.Intn(2))%len(cfg.Methods)]
 		t := eng
 		poolOnly := method == MPoolEM || method == MPoolEMMulti || method == MPoolEMSel
